@@ -37,6 +37,14 @@ def check(tier, seed):
             for mode in ('pure', 'sha256'):
                 jobs.append(('sign', s, skx, m, c, mode, r))
                 meta.append((s, mode, f"bytes:{skx.hex()}", m, c, r, 10 ** 6 + len(meta)))
+    # messages that imitate framing: OID(PH) || digest-length bytes (what a pre-hash mode puts behind the context) signed as messages, in every mode
+    for s in fam.SETS:
+        sk0 = fam.keypair(s, fam.seeds(random.Random(seed), 1)[0])[1]
+        for oidmode in ('sha256', 'sha512', 'shake128'):
+            mim = R.OIDS[oidmode] + R.prehash(oidmode, b'inner message')
+            for mode in ('pure', 'sha256', 'sha512', 'shake128'):
+                jobs.append(('sign', s, sk0, mim, b'x', mode, bytes(32)))
+                meta.append((s, mode, f"bytes:{sk0.hex()}", mim, b'x', bytes(32), 10 ** 6 + len(meta)))
     refs = fam.ref_map(jobs)
     cases = []
     for (s, mode, src, m, c, r, i), sig in zip(meta, refs):
@@ -49,6 +57,16 @@ def check(tier, seed):
         for mode in ('pure', 'sha512'):
             for sc in ('errbefore', 'errbefore@11+errbefore@11+errbefore@11+errbefore@11', 'errbefore@4+errbefore@4+errbefore@4', 'errafter@11:' + 'cd' * 32 + '+errafter@11:' + 'cd' * 32 + '+errafter@11:' + 'cd' * 32):
                 cases.append({'line': f"sign {s} {mode} gen:{xi0.hex()} {hx(b'm')} - {sc}", 'tag': 'sign with a failing generator', 'want': 'err:rng calls=tryfill32', 'model': s == '44'})
+    # bulk: many messages under one key against the Lean model (proved equal to Algorithm 7); a disagreement is re-judged by the Python
+    # reference. Rare per-coefficient events of an attempt (a Decompose bucket edge, a hint on a corner: 1e-3 .. 1e-4 per signature) are met here.
+    for s in fam.SETS:
+        xib = fam.seeds(random.Random(seed + 7), 1)[0]
+        skb = fam.keypair(s, xib)[1]
+        for t in range(4000 if tier == 'thorough' else 260):
+            mb = (t * 2654435761 + seed).to_bytes(8, 'little')
+            cases.append({'line': f"sign {s} pure gen:{xib.hex()} {hx(mb)} - ok:{'00' * 32}", 'tag': 'sign == model of Algorithm 7 (bulk messages)',
+                          'want': (lambda o: 'signing panicked' if o.startswith('panic') else None), 'model': True,
+                          'lazy_want': (lambda s=s, skb=skb, mb=mb: 'ok ' + R.sign(R.PARAMS[s], skb, mb, b'', 'pure', bytes(32)).hex() + ' calls=tryfill32')})
     # hook level: the samplers of Algorithm 7 at the counter values a long rejection run would reach (kappa crossing byte
     # boundaries, the u16 range end), compared with the bit-level reference
     for s in fam.SETS:
